@@ -7,10 +7,10 @@ import (
 	"encoding/json"
 	"fmt"
 	"os"
-	"strconv"
 	"runtime"
 	"runtime/debug"
 	"sort"
+	"strconv"
 	"strings"
 	"sync"
 	"sync/atomic"
@@ -24,20 +24,20 @@ import (
 // ---------------------------------------------------------------------------------------------------------------
 
 type tier struct {
-	maxR    int // Deployment sizes 1..maxR
-	fullR   int // up to this size every (maxSurge, maxUnavailable) pair of the alphabets; above it the percent forms only as the pair (25%,25%)
-	twoOldR int // up to this size initial states with two old ReplicaSets; above it one old ReplicaSet
-	scaleR  int // scale +-1 transitions between sizes 1..scaleR (0 = no scale events)
-	scaleB  int // at most this many scale events per history
-	lagR    int // initial states with status.replicas = spec.replicas +-1 for Deployment sizes up to lagR
-	budget  time.Duration
+	maxR      int // Deployment sizes 1..maxR
+	fullR     int // up to this size every (maxSurge, maxUnavailable) pair of the alphabets; above it the percent forms only as the pair (25%,25%)
+	twoOldR   int // up to this size initial states with two old ReplicaSets; above it one old ReplicaSet
+	scaleR    int // scale +-1 transitions between sizes 1..scaleR (0 = no scale events)
+	scaleB    int // at most this many scale events per history
+	lagR      int // initial states with status.replicas = spec.replicas +-1 for Deployment sizes up to lagR
+	budget    time.Duration
 	maxStates int
 }
 
 func tierOf(thorough bool) tier {
 	t := tier{maxR: 5, fullR: 3, twoOldR: 4, scaleR: 0, lagR: 0, budget: 50 * time.Second, maxStates: 12_000_000}
 	if thorough {
-		t = tier{maxR: 6, fullR: 4, twoOldR: 5, scaleR: 3, scaleB: 2, lagR: 3, budget: 13 * time.Minute, maxStates: 40_000_000}
+		t = tier{maxR: 6, fullR: 4, twoOldR: 5, scaleR: 3, scaleB: 1, lagR: 3, budget: 13 * time.Minute, maxStates: 40_000_000}
 	}
 	// development knobs only (smaller / different searches while working on the check)
 	if f := strings.Split(os.Getenv("C17_DEV_TIER"), ","); len(f) == 6 {
@@ -61,7 +61,13 @@ func genInitial(t tier) []key {
 	seen := map[key]struct{}{}
 	var out []key
 	add := func(s *state) {
-		k := s.key()
+		st := *s
+		for i := range st.RS {
+			if st.RS[i].Present && st.RS[i].N != st.RS[i].S {
+				st.SB = 0 // scale events only in histories that start from a settled status (keeps the product small)
+			}
+		}
+		k := st.key()
 		if _, ok := seen[k]; !ok {
 			seen[k] = struct{}{}
 			out = append(out, k)
@@ -367,7 +373,7 @@ func Run(r *lib.Report) {
 		e.vis.m[i] = map[key]pinfo{}
 	}
 	r.Rule = "explicit-state BFS with a visited set over canonical states (Deployment replicas, partition, maxSurge, maxUnavailable as written; per ReplicaSet spec.replicas, status.replicas, status.availableReplicas, desired-replicas annotation). " +
-		"Every state of the bounded domain is an initial state (inductive flavour). Each state gets exactly one REAL syncDeployment (evaluations = real syncs) plus the model transitions; non-trivial = syncs that wrote at least one ReplicaSet spec.replicas."
+		"Every state of the bounded domain is an initial state (inductive flavour; bounds and thinning under coverage.bounds, per-size groups under coverage.groups). Each state gets exactly one REAL syncDeployment (evaluations = real syncs) plus the model transitions (ReplicaSet controller: create / delete / pod available / pod unavailable, one pod per step; user: raisePartition; thorough: scale +-1); non-trivial = syncs that wrote at least one ReplicaSet spec.replicas. Safety oracles run on every sync, the convergence oracle on the finished graph."
 	r.Assumptions = []string{
 		"Partition reading: integer partitions count pods; percentages are scaled against Deployment replicas and rounded UP (as NewRSReplicasLimit / CalculateBatchReplicas do and as the API comment 'how many Pods should be updated' suggests), clamped to [0,replicas]. The repository additionally keeps one old pod for every percentage other than \"100%\" when replicas>1; the oracle does not demand that extra strictness.",
 		"maxSurge percent rounds up, maxUnavailable percent rounds down, both resolving to zero means maxUnavailable=1 (Kubernetes fence-post rule).",
@@ -376,6 +382,7 @@ func Run(r *lib.Report) {
 		"Old-reserve oracle only fires on writes that SHRINK an old ReplicaSet; over-partition and surge oracles only on writes that GROW the new ReplicaSet (creation counts as growth from 0).",
 		"The sync that handles a scaling event (an active ReplicaSet still annotated with the previous Deployment size) is not checked: the property scopes itself to unchanged size.",
 		"Before every sync the Deployment, ReplicaSets, clientset and listers are rebuilt from the canonical state (no informer lag); Deployment.status is recomputed, never carried over: the controller's ReplicaSet decisions do not read it when the max-replicas annotation is present (it always is).",
+		"Thorough tier: at most scaleB scale events per history and only from initial states with settled status; initial states with status.replicas = spec.replicas +-1 only for small sizes (see coverage.bounds).",
 		"Degradation (available pod becomes unavailable) is explored without a budget, which is a superset of the budgeted histories; degrade, raisePartition and scale edges are not fair edges.",
 		"Convergence: in the graph restricted to syncs and healthy environment steps, every bottom SCC reachable in a slice whose partition is \"100%\" or an integer >= replicas must be the single state {new.spec=replicas, every old.spec=0}.",
 	}
@@ -408,115 +415,155 @@ func Run(r *lib.Report) {
 	}
 	total := workerOut{outcomes: map[string]int64{}, vios: map[string]*vio{}}
 	var fairEdges []edge
-	frontier := init0
-	depth := 0
+	// The slices of different Deployment sizes are only connected by scale events (sizes 1..scaleR <= 3), so the
+	// search runs group by group, small sizes first: if the wall budget cuts the run, only the largest sizes are lost.
+	groups := map[int][]key{}
+	for _, k := range init0 {
+		g := 0
+		if R := fromKey(k).R; R > 3 {
+			g = R - 3
+		}
+		groups[g] = append(groups[g], k)
+	}
+	var groupStats []map[string]interface{}
+	maxDepth := 0
 	cut := ""
-	for len(frontier) > 0 {
-		if depth >= 250 {
-			cut = "depth 250 reached"
-			break
+	var frontier []key
+	depth := 0
+groupLoop:
+	for g := 0; g <= t.maxR; g++ {
+		if len(groups[g]) == 0 {
+			continue
 		}
-		const chunkSize = 128
-		nChunks := (len(frontier) + chunkSize - 1) / chunkSize
-		outs := make([]*workerOut, nw)
-		var next int64 = -1
-		var wg sync.WaitGroup
-		for wi := 0; wi < nw; wi++ {
-			wg.Add(1)
-			o := &workerOut{outcomes: map[string]int64{}, vios: map[string]*vio{}}
-			outs[wi] = o
-			go func(w *world, o *workerOut) {
-				defer wg.Done()
-				var buf []succ
-				for {
-					if atomic.LoadInt32(&e.stop) != 0 {
-						return
-					}
-					c := int(atomic.AddInt64(&next, 1))
-					if c >= nChunks {
-						return
-					}
-					if c%64 == 0 && time.VerifRealNow().Sub(e.started) > t.budget {
-						atomic.StoreInt32(&e.stop, 1)
-						return
-					}
-					hi := (c + 1) * chunkSize
-					if hi > len(frontier) {
-						hi = len(frontier)
-					}
-					buf = e.expandChunk(w, frontier[c*chunkSize:hi], uint8(depth), o, buf)
-				}
-			}(worlds[wi], o)
+		if cut != "" {
+			groupStats = append(groupStats, map[string]interface{}{"group": g, "skipped": true, "initial_states": len(groups[g])})
+			continue
 		}
-		wg.Wait()
-		if os.Getenv("C17_DEV_TRACE") != "" {
-			fmt.Fprintf(os.Stderr, "level %d frontier %d t=%.1fs\n", depth, len(frontier), time.VerifRealNow().Sub(e.started).Seconds())
-		}
-		// merge (deterministic: candidates sorted per shard, the smallest (parent,label) wins)
-		for _, o := range outs {
-			fairEdges = append(fairEdges, o.fair...)
-			total.syncs += o.syncs
-			total.trans += o.trans
-			total.wrote += o.wrote
-			total.expanded += o.expanded
-			if o.writesMax > total.writesMax {
-				total.writesMax = o.writesMax
+		frontier = groups[g]
+		depth = 0
+		before := e.vis.size()
+		for len(frontier) > 0 {
+			if depth >= 250 {
+				cut = "depth 250 reached"
+				break
 			}
-			for k, v := range o.outcomes {
-				total.outcomes[k] += v
+			const chunkSize = 128
+			nChunks := (len(frontier) + chunkSize - 1) / chunkSize
+			outs := make([]*workerOut, nw)
+			var next int64 = -1
+			var wg sync.WaitGroup
+			for wi := 0; wi < nw; wi++ {
+				wg.Add(1)
+				o := &workerOut{outcomes: map[string]int64{}, vios: map[string]*vio{}}
+				outs[wi] = o
+				go func(w *world, o *workerOut) {
+					defer wg.Done()
+					var buf []succ
+					for {
+						if atomic.LoadInt32(&e.stop) != 0 {
+							return
+						}
+						c := int(atomic.AddInt64(&next, 1))
+						if c >= nChunks {
+							return
+						}
+						if c%64 == 0 && time.VerifRealNow().Sub(e.started) > t.budget {
+							atomic.StoreInt32(&e.stop, 1)
+							return
+						}
+						hi := (c + 1) * chunkSize
+						if hi > len(frontier) {
+							hi = len(frontier)
+						}
+						buf = e.expandChunk(w, frontier[c*chunkSize:hi], uint8(depth), o, buf)
+					}
+				}(worlds[wi], o)
 			}
-			for sig, v := range o.vios {
-				tv, ok := total.vios[sig]
-				if !ok {
-					total.vios[sig] = v
-					continue
-				}
-				tv.count += v.count
-				if simpler(v.depth, v.at, tv.depth, tv.at) {
-					tv.detail, tv.at, tv.depth, tv.writes = v.detail, v.at, v.depth, v.writes
-				}
+			wg.Wait()
+			if os.Getenv("C17_DEV_TRACE") != "" {
+				fmt.Fprintf(os.Stderr, "level %d frontier %d t=%.1fs\n", depth, len(frontier), time.VerifRealNow().Sub(e.started).Seconds())
 			}
-		}
-		if atomic.LoadInt32(&e.stop) != 0 {
-			cut = fmt.Sprintf("wall budget %s exhausted at depth %d", t.budget, depth)
-			break
-		}
-		var fresh [nShards][]key
-		lib.ParallelFor(nShards, func(sh int) {
-			var cands []cand
+			// merge (deterministic: candidates sorted per shard, the smallest (parent,label) wins)
 			for _, o := range outs {
-				cands = append(cands, o.cands[sh]...)
+				fairEdges = append(fairEdges, o.fair...)
+				total.syncs += o.syncs
+				total.trans += o.trans
+				total.wrote += o.wrote
+				total.expanded += o.expanded
+				if o.writesMax > total.writesMax {
+					total.writesMax = o.writesMax
+				}
+				for k, v := range o.outcomes {
+					total.outcomes[k] += v
+				}
+				for sig, v := range o.vios {
+					tv, ok := total.vios[sig]
+					if !ok {
+						total.vios[sig] = v
+						continue
+					}
+					tv.count += v.count
+					if simpler(v.depth, v.at, tv.depth, tv.at) {
+						tv.detail, tv.at, tv.depth, tv.writes = v.detail, v.at, v.depth, v.writes
+					}
+				}
 			}
-			sort.Slice(cands, func(i, j int) bool {
-				a, b := cands[i], cands[j]
-				if a.child != b.child {
-					return a.child < b.child
+			if atomic.LoadInt32(&e.stop) != 0 {
+				cut = fmt.Sprintf("wall budget %s exhausted at depth %d", t.budget, depth)
+				break
+			}
+			var fresh [nShards][]key
+			lib.ParallelFor(nShards, func(sh int) {
+				var cands []cand
+				for _, o := range outs {
+					cands = append(cands, o.cands[sh]...)
 				}
-				if a.parent != b.parent {
-					return a.parent < b.parent
+				sort.Slice(cands, func(i, j int) bool {
+					a, b := cands[i], cands[j]
+					if a.child != b.child {
+						return a.child < b.child
+					}
+					if a.parent != b.parent {
+						return a.parent < b.parent
+					}
+					return a.l < b.l
+				})
+				for i, c := range cands {
+					if i > 0 && cands[i-1].child == c.child {
+						continue
+					}
+					e.vis.m[sh][c.child] = pinfo{parent: c.parent, l: c.l, depth: uint8(depth + 1)}
+					fresh[sh] = append(fresh[sh], c.child)
 				}
-				return a.l < b.l
 			})
-			for i, c := range cands {
-				if i > 0 && cands[i-1].child == c.child {
-					continue
-				}
-				e.vis.m[sh][c.child] = pinfo{parent: c.parent, l: c.l, depth: uint8(depth + 1)}
-				fresh[sh] = append(fresh[sh], c.child)
+			frontier = frontier[:0:0]
+			for sh := range fresh {
+				frontier = append(frontier, fresh[sh]...)
 			}
-		})
-		frontier = frontier[:0:0]
-		for sh := range fresh {
-			frontier = append(frontier, fresh[sh]...)
+			// keep ~1 GiB of head-room for garbage above the (pointer-free) search structures
+			debug.SetMemoryLimit(gcLimit() + int64(e.vis.size())*48 + int64(len(fairEdges))*16)
+			depth++
+			if e.vis.size() > t.maxStates {
+				cut = fmt.Sprintf("state cap %d reached at depth %d", t.maxStates, depth)
+				break
+			}
 		}
-		// keep ~1 GiB of head-room for garbage above the (pointer-free) search structures
-		debug.SetMemoryLimit(gcLimit() + int64(e.vis.size())*48 + int64(len(fairEdges))*16)
-		depth++
-		if e.vis.size() > t.maxStates {
-			cut = fmt.Sprintf("state cap %d reached at depth %d", t.maxStates, depth)
-			break
+		if depth > maxDepth {
+			maxDepth = depth
+		}
+		sizes := "1..3"
+		if g > 0 {
+			sizes = strconv.Itoa(g + 3)
+		}
+		groupStats = append(groupStats, map[string]interface{}{"group": g, "replicas": sizes, "initial_states": len(groups[g]),
+			"states": e.vis.size() - before + len(groups[g]), "bfs_depth": depth, "cut": cut, "t_s": int(time.VerifRealNow().Sub(e.started).Seconds())})
+		if cut != "" {
+			cut = fmt.Sprintf("group %d (replicas %s): %s", g, sizes, cut)
+			continue groupLoop
 		}
 	}
+	depth = maxDepth
+	r.Extra["groups"] = groupStats
 	exhaustive := cut == ""
 	if !exhaustive {
 		r.NotExhaustive(cut)
